@@ -8,6 +8,7 @@ an independent wire walker that uses nothing of dnspython.
 
 (Shared with C08: message case <-> dnspython objects <-> protocol tokens, generators, the wire walker.)
 """
+from harness.core import Stalled as _Stalled
 import glob
 import json
 import os
@@ -311,6 +312,8 @@ def parse(wire, origin=None, orr=False, it=False, key=None):
             return "err FormError", None
         return "err other:" + n, None
     except BaseException as e:
+        if isinstance(e, _Stalled):
+            raise
         return "FOREIGN " + type(e).__name__, None
     return "ok", m
 
@@ -1030,6 +1033,8 @@ def eval_steps(ctx: Ctx, c: dict):
                 try:
                     r.add_rrset(sec, rrb, want_shuffle=False)
                 except BaseException as e:  # noqa: BLE001
+                    if isinstance(e, _Stalled):
+                        raise
                     got = type(e)
                 ctx.count("steps.boom." + spec["how"])
                 now = (r.output.getvalue(), dict(r.compress), list(r.counts))
